@@ -20,6 +20,7 @@ GOLDEN_KINDS = ['aes128', 'aes192', 'aes256', 'des3', 'des2', 'generic32', 'gene
                 'ec_p256b:pub', 'ec_p256b:priv', 'ec_p384:pub', 'ec_p384:priv', 'ec_p384b:pub', 'ec_p521:pub', 'ec_p521:priv', 'ec_p521b:pub', 'ed25519:pub', 'ed25519:priv', 'dsa1024:pub', 'dsa1024:priv',
                 'dh1024:pub', 'dh1024:priv', 'dh1024b:pub', 'x509', 'data']
 
+def cls_of(f): return 'secret' if f in ('aes', 'des3', 'des2', 'des', 'generic') else 'public' if f.endswith('-pub') else 'private' if f.endswith('-priv') else f
 def fam(kind):
     if kind is None: return 'unknown'
     if kind.startswith('aes'): return 'aes'
@@ -59,17 +60,17 @@ class Quad:
             di = os.path.join(d, 'c%d' % i); os.makedirs(di); shutil.copytree(os.path.join(env['golden'][i], 'tokens'), os.path.join(di, 'tokens'))
             p = env['paths'][cfg]; x = Exec(p['exe'], p['lib'], mkconf(di, be), s.ck, env=dict(SAN_ENV), stderr=f'{di}/stderr.log', trace=f'{di}/trace.jsonl'); x.timeout = 120; s.x.append(x)
         s.ncalls = 0
-    def call(s, fn, **kw):
+    def call(self, fn, **kw):
         """the same logical call on all four; Pos arguments are translated per configuration (also inside mechanism parameters)"""
         out = []
-        for i, x in enumerate(s.x):
+        for i, x in enumerate(self.x):
             def tr(v):
                 if isinstance(v, Pos): return v.hs[i]
                 if isinstance(v, dict): return {k: tr(w) for k, w in v.items()}
                 if isinstance(v, list): return [tr(w) for w in v]
                 return v
             out.append(x.call(fn, **{k: tr(v) for k, v in kw.items()}))
-        s.ncalls += 1; return out
+        self.ncalls += 1; return out
     def kill(s):
         for x in s.x: x.kill()
 
@@ -79,14 +80,24 @@ def partition(o):
     if o[0] == o[2] and o[1] == o[3] and o[0] != o[1]: return 'file~db', f'{o[0]}~{o[1]}'
     return 'mixed', '~'.join(o)
 def value_labels(vals):
-    """stable labels for four byte strings (hex or None): different lengths -> len=N, else equality classes A, B, ..."""
+    """stable labels for four byte strings (hex or None): absent / empty / equality classes A, B, ... when the lengths agree,
+    length classes L1, L2, ... when they do not (no concrete numbers: keys must not depend on key sizes or curves)"""
     ls = [None if v is None else len(v) // 2 for v in vals]
-    if len(set(ls)) > 1: return ['absent' if l is None else 'len=%d' % l for l in ls]
+    if len(set(ls)) > 1:
+        order = []
+        for l in ls:
+            if l not in (None, 0) and l not in order: order.append(l)
+        return ['absent' if l is None else 'empty' if l == 0 else ('nonempty' if len(order) == 1 else 'L%d' % (order.index(l) + 1)) for l in ls]
     seen = []; out = []
     for v in vals:
         if v not in seen: seen.append(v)
         out.append('ABCD'[seen.index(v)])
     return out
+def len_labels(ns):
+    order = []
+    for n in ns:
+        if n not in order: order.append(n)
+    return ['L%d' % (order.index(n) + 1) for n in ns]
 
 class Disagree(Exception): pass
 
@@ -100,38 +111,51 @@ class Prog:
         s.part.count('disagreements_found')
         s.part.violation(key, f'{fn} ({what}) behaves differently: ' + ', '.join(f'{n}: {l}' for n, l in zip(NAMES, labels)),
                          {'seed': s.seed, 'unit': s.unit, 'detail': detail, 'labels': labels, 'history_tail': s.log[-10:]})
-    def step(s, fn, what, cmp=(), must_ok=False, **kw):
+    def note_cross(s, fn, what, i, outcome, detail):
+        """a randomised output produced under configuration i that the configurations (all of them alike) do not accept"""
+        s.ndis += 1; s.part.count('disagreements_found')
+        s.part.violation(f'{fn}|{what}|produced-by-{NAMES[i].split("/")[0]}|{outcome}', f'{fn} ({what}): the output produced under {NAMES[i]} is not accepted: {outcome}', {'seed': s.seed, 'unit': s.unit, 'detail': detail, 'history_tail': s.log[-10:]})
+    def step(self, fn, what, cmp=(), must_ok=False, shape='', **kw):
         """one logical call on the four configurations.  Compares rv exactly, then the reply fields named in `cmp`
         ('out' = output buffer length+bytes, 'len' = output length only, 'n' = count).  Raises Disagree when the return codes
         differ (the rest of the unit would only cascade)."""
-        rs = s.q.call(fn, **kw); s.steps += 1; s.part.count('comparisons'); s.part.case((fn, what.split(':')[0]))
-        rvs = [r['rvname'] for r in rs]; s.log.append((fn, what, rvs[0] if len(set(rvs)) == 1 else rvs))
-        if any('error' in r and r.get('rv') == -1 for r in rs): s.part.inconc('harness: bad request %s %s' % (fn, [r.get('error') for r in rs])); raise Disagree()
-        if len(set(rvs)) > 1: s.note(fn, what, rvs, {'args': clip(kw)}); raise Disagree()
+        rs = self.q.call(fn, **kw); self.steps += 1; self.part.count('comparisons'); self.part.case((fn, what.split(':')[0]))
+        rvs = [r['rvname'] for r in rs]; self.log.append((fn, what + (' [%s]' % shape if shape else ''), rvs[0] if len(set(rvs)) == 1 else rvs))
+        if any('error' in r and r.get('rv') == -1 for r in rs): self.part.inconc('harness: bad request %s %s' % (fn, [r.get('error') for r in rs])); raise Disagree()
+        if len(set(rvs)) > 1: self.note(fn, what, rvs, {'args': clip(kw), 'shape': shape}); raise Disagree()
         if rvs[0] == 'CKR_OK' or rvs[0] == 'CKR_BUFFER_TOO_SMALL':
             for c in cmp:
-                s.part.count('comparisons')
+                self.part.count('comparisons')
                 if c == 'out':
-                    if rvs[0] != 'CKR_OK': vals = ['%016x' % ((r.get('out') or {}).get('len', 0)) for r in rs]; labs = ['len=%d' % int(v, 16) for v in vals]
-                    elif kw.get('buf', 1) is None: labs = ['len=%d' % (r.get('out') or {}).get('len', -1) for r in rs]
+                    if rvs[0] != 'CKR_OK' or kw.get('buf', 1) is None: labs = len_labels([(r.get('out') or {}).get('len', -1) for r in rs])
                     else: labs = value_labels([(r.get('out') or {}).get('data') for r in rs])
-                    if len(set(labs)) > 1: s.note(fn, what + ':output', labs, {'args': clip(kw)}); raise Disagree()
+                    if len(set(labs)) > 1: self.note(fn, what + (':announced-length' if (rvs[0] != 'CKR_OK' or kw.get('buf', 1) is None) else ':output'), labs, {'args': clip(kw), 'shape': shape}); raise Disagree()
                 elif c == 'n':
                     labs = ['n=%s' % r.get('n') for r in rs]
-                    if len(set(labs)) > 1: s.note(fn, what + ':count', labs, {'args': clip(kw)}); raise Disagree()
+                    if len(set(labs)) > 1: self.note(fn, what + ':count', labs, {'args': clip(kw)}); raise Disagree()
         if must_ok and rvs[0] != 'CKR_OK': raise Disagree()
         return rs
-    def read_attrs(s, pos, f, names=None, what_prefix=''):
-        """read attributes one per template entry and compare rv, then per attribute availability, length and bytes"""
+    def read_attrs(s, pos, f, names=None, producer='C_GetAttributeValue'):
+        """read attributes (one per template entry) and compare per attribute: availability, length, bytes.  The aggregate return
+        code of the read is a function of those, so it is not compared separately.  When more than three attributes of one
+        object differ along the same configuration axis they are ONE finding (`many-attributes`), keyed by the call that made the object."""
         names = names or attrs_of(f)
-        rs = s.step('C_GetAttributeValue', 'attributes:' + f, s=s.S, o=pos, tmpl=[{'t': s.ck[a], 'buf': 4096} for a in names])
+        rs = s.q.call('C_GetAttributeValue', s=s.S, o=pos, tmpl=[{'t': s.ck[a], 'buf': 4096} for a in names]); s.steps += 1; s.log.append(('C_GetAttributeValue', 'read-back:' + f, [r['rvname'] for r in rs]))
+        diffs = {}
         for j, a in enumerate(names):
-            s.part.count('comparisons'); s.part.case(('attr', a, f))
+            s.part.count('comparisons'); s.part.case(('attr', a))
             vals = []
             for r in rs:
                 e = (r.get('tmpl') or [{}] * len(names))[j]; vals.append(e.get('data') if isinstance(e.get('len'), int) and e.get('len') >= 0 else None)
             labs = value_labels(vals)
-            if len(set(labs)) > 1: s.note('C_GetAttributeValue', f'{a}:{f}', labs, {'unit': s.unit, 'values': [clip(v) for v in vals]})
+            if len(set(labs)) > 1: pair, outc = partition(labs); diffs.setdefault(pair, []).append((a, labs, [clip(v) for v in vals]))
+        for pair, l in diffs.items():
+            if len(l) > 3:
+                s.ndis += 1; s.part.count('disagreements_found')
+                s.part.violation(f'{producer}|many-attributes|{pair}|differ', f'after {producer} more than three attributes of the object differ between configurations ({pair}): ' + ', '.join(a for a, _, _ in l),
+                                 {'seed': s.seed, 'unit': s.unit, 'attributes': [(a, labs) for a, labs, _ in l], 'history_tail': s.log[-8:]})
+            else:
+                for a, labs, vals in l: s.note(producer, f'{a}:{f}' if producer == 'C_GetAttributeValue' else a, labs, {'values': vals})
     # ---------------------------------------------------------------- model
     def add(s, rs, kind, key='h'):
         o = {'pos': Pos([r.get(key, 0) for r in rs]), 'kind': kind, 'fam': fam(kind), 'alive': True, 'golden': False}; s.objs.append(o); return o
@@ -151,3 +175,367 @@ def clip(o, n=96):
     if isinstance(o, dict): return {k: clip(v, n) for k, v in o.items()}
     if isinstance(o, list): return [clip(v, n) for v in o[:24]]
     return o
+
+HASHES = ['CKM_MD5', 'CKM_SHA_1', 'CKM_SHA224', 'CKM_SHA256', 'CKM_SHA384', 'CKM_SHA512']
+HLEN = {'CKM_MD5': 16, 'CKM_SHA_1': 20, 'CKM_SHA224': 28, 'CKM_SHA256': 32, 'CKM_SHA384': 48, 'CKM_SHA512': 64}
+class Prog(Prog):
+    # ---------------------------------------------------------------- generic operation driver
+    def outs(s, rs): return [(r.get('out') or {}).get('data', '') for r in rs]
+    def produce(s, kind, mech, what, key, data, mode, det=True):
+        """Init + data phase of encrypt / decrypt / sign / digest in one of the protocol shapes; returns the four outputs (hex).
+        The protocol shape is not part of a finding's key (the entry point already is).  Multi-part: libraries may buffer
+        differently, so the CONCATENATED output is what is compared.  det=False: randomised mechanism, only lengths are
+        compared here (the bytes are cross-fed by the caller)."""
+        S = s.S; I, O, U, F = {'E': ('C_EncryptInit', 'C_Encrypt', 'C_EncryptUpdate', 'C_EncryptFinal'), 'De': ('C_DecryptInit', 'C_Decrypt', 'C_DecryptUpdate', 'C_DecryptFinal'),
+                               'S': ('C_SignInit', 'C_Sign', 'C_SignUpdate', 'C_SignFinal'), 'D': ('C_DigestInit', 'C_Digest', 'C_DigestUpdate', 'C_DigestFinal')}[kind]
+        cmp = ('out',) if det else ()
+        if data == '' and kind in ('E', 'De'): what += ':empty-input'
+        if kind == 'D': s.step(I, what, s=S, mech=mech, must_ok=True)
+        else: s.step(I, what, s=S, mech=mech, key=key, must_ok=True)
+        big = 8192 + len(data) // 2
+        if mode == 'query': s.step(O, what, cmp=('out',), shape='size-query', s=S, data=data, buf=None, must_ok=True)
+        if mode == 'small':
+            r = s.step(O, what, cmp=('out',) if det else (), shape='small-buffer', s=S, data=data, buf=s.rnd.choice([0, 1, 7, 15]))
+            if r[0]['rvname'] == 'CKR_OK': return s.outs(r)
+            if r[0]['rvname'] != 'CKR_BUFFER_TOO_SMALL': raise Disagree()
+        if mode == 'multi':
+            b = bytes.fromhex(data); out = [''] * 4; i = 0; per_call = []
+            while True:
+                n = s.rnd.choice([1, 7, 16, 17, 32, 100, 1000]); chunk = b[i:i + n].hex(); i += n
+                if kind in ('S', 'D'): s.step(U, what, shape='update', s=S, data=chunk, must_ok=True)
+                else:
+                    r = s.step(U, what, shape='update', s=S, data=chunk, buf=big, must_ok=True); o = s.outs(r); out = [a + c for a, c in zip(out, o)]; per_call.append([len(x) // 2 for x in o])
+                if i >= len(b): break
+            r = s.step(F, what, shape='final', s=S, buf=big, must_ok=True); out = [a + c for a, c in zip(out, s.outs(r))]
+            if any(len(set(p)) > 1 for p in per_call): s.part.observe('multi-part chunking differs (the concatenated output is what is compared)', what.split(':')[0])
+            if det:
+                s.part.count('comparisons'); labs = value_labels(out)
+                if len(set(labs)) > 1: s.note(F, what + ':output', labs, {'shape': 'multi-part, concatenated'}); raise Disagree()
+            return out
+        r = s.step(O, what, cmp=cmp, s=S, data=data, buf=big, must_ok=True)
+        if not det:
+            labs = len_labels([(x.get('out') or {}).get('len', -1) for x in r])
+            if len(set(labs)) > 1: s.note(O, what + ':output-length', labs, {}); raise Disagree()
+        return s.outs(r)
+    def mode(s, multi=True): return s.rnd.choice(['oneshot', 'oneshot', 'query', 'small'] + (['multi', 'multi'] if multi else []))
+    def blob(s, n): return s.rnd.randbytes(n).hex()
+    def verify_all(s, mech, what, pub, data, sigs, multi=False):
+        """cross-feed: every configuration must accept the signature each configuration produced"""
+        for i, sig in enumerate(sigs):
+            s.step('C_VerifyInit', what, s=s.S, mech=mech, key=pub, must_ok=True)
+            if multi: s.step('C_VerifyUpdate', what, s=s.S, data=data, must_ok=True); rs = s.step('C_VerifyFinal', what, s=s.S, sig=sig)
+            else: rs = s.step('C_Verify', what, s=s.S, data=data, sig=sig)
+            if rs[0]['rvname'] != 'CKR_OK': s.note_cross('C_Verify', what, i, rs[0]['rvname'], {'sig': clip(sig)}); raise Disagree()
+    def verify_bad(s, mech, what, pub, data, sig):
+        b = bytearray.fromhex(sig)
+        if not b: return
+        c = s.rnd.randrange(3)
+        if c == 0: b[s.rnd.randrange(len(b))] ^= 1 << s.rnd.randrange(8)
+        elif c == 1: b = b[:-1]
+        else: b += b'\x00'
+        s.step('C_VerifyInit', what, s=s.S, mech=mech, key=pub, must_ok=True); s.step('C_Verify', what + ':bad-signature', s=s.S, data=data, sig=bytes(b).hex())
+    # ---------------------------------------------------------------- crypto units
+    def u_digest(s):
+        m = s.rnd.choice([h for h in HASHES if s.has(h)]); s.unit = 'digest ' + m; n = s.rnd.choice([0, 1, 3, 55, 56, 64, 119, 128, 1000, 5000])
+        s.produce('D', s.M(m), m, None, s.blob(n), s.mode())
+        if s.rnd.random() < 0.2:   # digest a key
+            k = s.gold(s.rnd.choice(['aes128', 'generic32', 'des3'])); s.step('C_DigestInit', m, s=s.S, mech=s.M(m), must_ok=True); s.step('C_DigestKey', m + ':digest-key', s=s.S, key=k['pos'], must_ok=True); s.step('C_DigestFinal', m + ':digest-key', cmp=('out',), s=s.S, buf=128)
+    def sym_key(s, f):
+        o = s.pick({f}) if s.rnd.random() < 0.3 else None
+        return o or s.gold({'aes': s.rnd.choice(['aes128', 'aes192', 'aes256']), 'des3': s.rnd.choice(['des3', 'des2'])}[f])
+    def u_sym(s):
+        r = s.rnd; m = r.choice([x for x in ['CKM_AES_ECB', 'CKM_AES_CBC', 'CKM_AES_CBC_PAD', 'CKM_AES_CTR', 'CKM_AES_GCM', 'CKM_DES3_ECB', 'CKM_DES3_CBC', 'CKM_DES3_CBC_PAD'] if s.has(x)])
+        f = 'aes' if 'AES' in m else 'des3'; bs = 16 if f == 'aes' else 8; key = s.sym_key(f); what = m; p = None
+        if m.endswith('_CBC') or m.endswith('_CBC_PAD'): p = {'hex': s.blob(bs)}
+        elif m == 'CKM_AES_CTR': p = {'ctr': {'bits': r.choice([128, 64, 32, 16, 1]), 'cb': s.blob(16)}}
+        elif m == 'CKM_AES_GCM':
+            ivl = r.choice([12, 12, 12, 12, 1, 8, 13, 16, 64, 0]); tb = r.choice([128, 128, 128, 120, 112, 104, 96, 64, 32]) if ivl == 12 else 128; al = r.choice([0, 0, 1, 16, 20, 100])
+            p = {'gcm': dict(iv=s.blob(ivl), tagbits=tb, **({'aad': s.blob(al)} if al else {}))}; what = 'CKM_AES_GCM' + ('' if ivl == 12 else ':iv-empty' if ivl == 0 else ':iv-not-96-bits') + ('' if tb >= 96 else ':tag-below-96-bits')
+        s.unit = f'sym {what} key={key["kind"]}'
+        aligned = r.random() < (0.8 if (m.endswith('ECB') or m.endswith('_CBC')) else 0.4); n = r.choice([0, bs, 2 * bs, 4 * bs, 64 * bs]) if aligned else r.choice([1, bs - 1, bs + 1, 3 * bs + 5, 1000])
+        pt = s.blob(n); mech = s.M(m, p); md = s.mode()
+        if m == 'CKM_AES_GCM' and md == 'multi' and r.random() < 0.5: md = 'oneshot'
+        ct = s.produce('E', mech, what, key['pos'], pt, md)
+        back = s.produce('De', mech, what, key['pos'], ct[0], s.mode())
+        if back[0] != pt: s.part.observe('roundtrip mismatch (all four agree; correctness belongs to C10)', what)
+        c = r.randrange(4)   # hostile ciphertexts: the error behaviour must agree too
+        bad = ct[0][:-2] if c == 0 else (ct[0] + '00') if c == 1 else '' if c == 2 else (ct[0][:-2] + '%02x' % (int(ct[0][-2:], 16) ^ 1) if ct[0] else '')
+        s.produce('De', mech, what + ['' if bad == '' else ':truncated-ciphertext', ':extended-ciphertext', '', ':bitflipped-ciphertext'][c], key['pos'], bad, r.choice(['oneshot', 'multi']))
+    def u_mac(s):
+        r = s.rnd; m = r.choice([x for x in ['CKM_MD5_HMAC', 'CKM_SHA_1_HMAC', 'CKM_SHA224_HMAC', 'CKM_SHA256_HMAC', 'CKM_SHA384_HMAC', 'CKM_SHA512_HMAC', 'CKM_AES_CMAC', 'CKM_DES3_CMAC'] if s.has(x)])
+        key = s.gold(r.choice(['generic32', 'generic64'])) if 'HMAC' in m else s.sym_key('aes' if 'AES' in m else 'des3')
+        if 'HMAC' in m and r.random() < 0.3: key = s.pick({'generic'}) or key
+        s.unit = f'mac {m} key={key["kind"]}'; data = s.blob(r.choice([0, 1, 16, 17, 64, 1000])); multi = r.random() < 0.4
+        sig = s.produce('S', s.M(m), m, key['pos'], data, s.mode())
+        s.verify_all(s.M(m), m, key['pos'], data, sig[:1], multi=multi); s.verify_bad(s.M(m), m, key['pos'], data, sig[0])
+    def u_rsa_sign(s):
+        r = s.rnd; bits = r.choice([1024, 2048]); priv = s.gold('rsa%d:priv' % bits); pub = s.gold('rsa%d:pub' % bits); ml = bits // 8
+        m = r.choice([x for x in ['CKM_RSA_PKCS', 'CKM_RSA_X_509', 'CKM_MD5_RSA_PKCS', 'CKM_SHA1_RSA_PKCS', 'CKM_SHA224_RSA_PKCS', 'CKM_SHA256_RSA_PKCS', 'CKM_SHA384_RSA_PKCS', 'CKM_SHA512_RSA_PKCS'] if s.has(x)]); s.unit = f'rsa-sign {m} {bits}'
+        if m == 'CKM_RSA_PKCS': n = r.choice([0, 1, 20, 35, 51, ml - 11, ml - 10, ml])
+        elif m == 'CKM_RSA_X_509': n = r.choice([1, 20, ml - 1, ml, ml + 1])
+        else: n = r.choice([0, 1, 100, 3000])
+        data = ('00' + s.blob(n - 1)) if (m == 'CKM_RSA_X_509' and n >= ml) else s.blob(n)
+        sig = s.produce('S', s.M(m), m, priv['pos'], data, s.mode(multi=m not in ('CKM_RSA_PKCS', 'CKM_RSA_X_509')))
+        s.verify_all(s.M(m), m, pub['pos'], data, sig[:1], multi=(m not in ('CKM_RSA_PKCS', 'CKM_RSA_X_509') and r.random() < 0.5)); s.verify_bad(s.M(m), m, pub['pos'], data, sig[0])
+    def u_rsa_pss(s):
+        r = s.rnd; bits = r.choice([1024, 2048]); priv = s.gold('rsa%d:priv' % bits); pub = s.gold('rsa%d:pub' % bits); h = r.choice(['SHA_1', 'SHA224', 'SHA256', 'SHA384', 'SHA512']); hm = 'CKM_' + h; mgf = {'SHA_1': 'CKG_MGF1_SHA1'}.get(h, 'CKG_MGF1_' + h)
+        m = r.choice(['CKM_RSA_PKCS_PSS', 'CKM_' + h.replace('SHA_1', 'SHA1') + '_RSA_PKCS_PSS'])
+        if not s.has(m): return
+        hl = HLEN[hm]; sl = r.choice([0, hl, hl, 20, bits // 8 - hl - 2, bits // 8 - hl - 1, bits // 8]); p = {'pss': {'hash': s.ck[hm], 'mgf': s.ck[mgf], 'slen': sl}}
+        if r.random() < 0.15: p['pss']['mgf'] = s.ck[r.choice(['CKG_MGF1_SHA1', 'CKG_MGF1_SHA256', 'CKG_MGF1_SHA512'])]     # mismatching MGF: the refusal (or not) must agree
+        s.unit = f'rsa-pss {m} {bits} slen={sl}'; data = s.blob(hl) if m == 'CKM_RSA_PKCS_PSS' else s.blob(r.choice([0, 10, 1000])); what = m
+        sigs = s.produce('S', s.M(m, p), what, priv['pos'], data, s.mode(multi=m != 'CKM_RSA_PKCS_PSS'), det=False)
+        s.verify_all(s.M(m, p), what, pub['pos'], data, [sigs[0], sigs[2]]); s.verify_bad(s.M(m, p), what, pub['pos'], data, sigs[0])
+    def u_rsa_enc(s):
+        r = s.rnd; bits = r.choice([1024, 2048]); priv = s.gold('rsa%d:priv' % bits); pub = s.gold('rsa%d:pub' % bits); ml = bits // 8
+        m = r.choice(['CKM_RSA_PKCS', 'CKM_RSA_PKCS_OAEP', 'CKM_RSA_X_509']); p = {'oaep': {'hash': s.ck.CKM_SHA_1, 'mgf': s.ck.CKG_MGF1_SHA1, 'source': 1}} if m == 'CKM_RSA_PKCS_OAEP' else None
+        if not s.has(m): return
+        n = r.choice([0, 1, 16, ml - 42, ml - 41, ml - 11, ml - 10]) if m != 'CKM_RSA_X_509' else r.choice([1, ml - 1, ml, ml + 1]); s.unit = f'rsa-enc {m} {bits} n={n}'
+        pt = ('00' + s.blob(n - 1)) if (m == 'CKM_RSA_X_509' and n >= ml) else s.blob(n)
+        cts = s.produce('E', s.M(m, p), m, pub['pos'], pt, s.mode(multi=False), det=(m == 'CKM_RSA_X_509'))
+        for i in ((0, 2) if m != 'CKM_RSA_X_509' else (0,)):   # cross-feed: the ciphertext of an OpenSSL and of a Botan configuration
+            back = s.produce('De', s.M(m, p), m, priv['pos'], cts[i], s.mode(multi=False))
+            if m != 'CKM_RSA_X_509' and back[0] != pt: s.note_cross('C_Decrypt', m, i, 'wrong-plaintext', {}); raise Disagree()
+        s.produce('De', s.M(m, p), m + ':garbage-ciphertext', priv['pos'], r.choice([s.blob(ml), '00' * ml, s.blob(ml - 1), cts[0][:-2] + '00']), 'oneshot')
+    def u_ecdsa(s):
+        r = s.rnd; cv = r.choice(['ec_p256', 'ec_p384', 'ec_p521']); priv = s.gold(cv + ':priv'); pub = s.gold(cv + ':pub'); n = r.choice([20, 28, 32, 48, 64, 1, 0, 100]); s.unit = f'ecdsa {cv} n={n}'; data = s.blob(n)
+        sigs = s.produce('S', s.M('CKM_ECDSA'), 'CKM_ECDSA', priv['pos'], data, s.mode(multi=False), det=False)
+        s.verify_all(s.M('CKM_ECDSA'), 'CKM_ECDSA', pub['pos'], data, [sigs[0], sigs[2]]); s.verify_bad(s.M('CKM_ECDSA'), 'CKM_ECDSA', pub['pos'], data, sigs[0])
+        s.step('C_VerifyInit', 'CKM_ECDSA', s=s.S, mech=s.M('CKM_ECDSA'), key=s.gold('ec_p256b:pub' if cv == 'ec_p256' else 'ec_p384b:pub' if cv == 'ec_p384' else 'ec_p521b:pub')['pos'], must_ok=True); s.step('C_Verify', 'CKM_ECDSA:wrong-key', s=s.S, data=data, sig=sigs[0])
+    def u_eddsa(s):
+        r = s.rnd; priv = s.gold('ed25519:priv'); pub = s.gold('ed25519:pub'); n = r.choice([0, 1, 32, 64, 1000]); s.unit = f'eddsa n={n}'; data = s.blob(n)
+        sigs = s.produce('S', s.M('CKM_EDDSA'), 'CKM_EDDSA', priv['pos'], data, s.mode(multi=False))
+        s.verify_all(s.M('CKM_EDDSA'), 'CKM_EDDSA', pub['pos'], data, sigs[:1]); s.verify_bad(s.M('CKM_EDDSA'), 'CKM_EDDSA', pub['pos'], data, sigs[0])
+    def u_dsa(s):
+        r = s.rnd; priv = s.gold('dsa1024:priv'); pub = s.gold('dsa1024:pub'); m = r.choice([x for x in ['CKM_DSA', 'CKM_DSA_SHA1', 'CKM_DSA_SHA224', 'CKM_DSA_SHA256', 'CKM_DSA_SHA384', 'CKM_DSA_SHA512'] if s.has(x)])
+        n = r.choice([20, 20, 1, 19, 21, 32]) if m == 'CKM_DSA' else r.choice([0, 10, 1000]); s.unit = f'dsa {m} n={n}'; data = s.blob(n)
+        sigs = s.produce('S', s.M(m), m, priv['pos'], data, s.mode(multi=m != 'CKM_DSA'), det=False)
+        s.verify_all(s.M(m), m, pub['pos'], data, [sigs[0], sigs[2]]); s.verify_bad(s.M(m), m, pub['pos'], data, sigs[0])
+    SECRET_T = [('CKA_CLASS', 'CKO_SECRET_KEY'), ('CKA_TOKEN', False), ('CKA_SENSITIVE', False), ('CKA_EXTRACTABLE', True), ('CKA_ENCRYPT', True), ('CKA_DECRYPT', True), ('CKA_SIGN', True), ('CKA_VERIFY', True)]
+    def u_wrap(s):
+        r = s.rnd; c = r.randrange(6)
+        wm, wkind, ukind, det = [('CKM_AES_KEY_WRAP', 'aes', 'aes', True), ('CKM_AES_KEY_WRAP_PAD', 'aes', 'aes', True), ('CKM_AES_CBC_PAD', 'aes', 'aes', True), ('CKM_DES3_CBC_PAD', 'des3', 'des3', True),
+                                 ('CKM_RSA_PKCS', 'rsa', 'rsa', False), ('CKM_RSA_PKCS_OAEP', 'rsa', 'rsa', False)][c]
+        if not s.has(wm): return
+        p = {'hex': s.blob(16 if 'AES' in wm else 8)} if 'CBC' in wm else {'oaep': {'hash': s.ck.CKM_SHA_1, 'mgf': s.ck.CKG_MGF1_SHA1, 'source': 1}} if 'OAEP' in wm else None
+        if wkind == 'rsa': bits = r.choice([1024, 2048]); wk = s.gold('rsa%d:pub' % bits); uk = s.gold('rsa%d:priv' % bits)
+        else: wk = uk = s.sym_key(wkind)
+        privs = ['rsa1024:priv', 'ec_p256:priv', 'ec_p384:priv', 'dsa1024:priv', 'dh1024:priv', 'ed25519:priv']
+        tk = r.choice(['aes128', 'aes256', 'generic32', 'generic64', 'des3'] + (privs if wm in ('CKM_AES_KEY_WRAP_PAD', 'CKM_AES_CBC_PAD', 'CKM_DES3_CBC_PAD') else []))
+        tgt = s.gold(tk); s.unit = f'wrap {wm} wkey={wk["kind"]} target={tk}'; what = wm + (':' + fam(tk) if tk in privs else '')
+        md = r.choice(['oneshot', 'query', 'small'])
+        if md == 'query': s.step('C_WrapKey', what, cmp=('out',) if det else (), shape='size-query', s=s.S, mech=s.M(wm, p), wkey=wk['pos'], key=tgt['pos'], buf=None, must_ok=True)
+        if md == 'small':
+            x = s.step('C_WrapKey', what, cmp=('out',) if det else (), shape='small-buffer', s=s.S, mech=s.M(wm, p), wkey=wk['pos'], key=tgt['pos'], buf=r.choice([0, 1, 8]))
+            if x[0]['rvname'] not in ('CKR_BUFFER_TOO_SMALL', 'CKR_OK'): return
+        rs = s.step('C_WrapKey', what, cmp=('out',) if det else (), s=s.S, mech=s.M(wm, p), wkey=wk['pos'], key=tgt['pos'], buf=8192, must_ok=True); blobs = s.outs(rs)
+        f = fam(tk)
+        if f.endswith('-priv'): t = [('CKA_CLASS', 'CKO_PRIVATE_KEY'), ('CKA_KEY_TYPE', {'rsa': 'CKK_RSA', 'ec': 'CKK_EC', 'dsa': 'CKK_DSA', 'dh': 'CKK_DH', 'ed': 'CKK_EC_EDWARDS'}[f[:-5]]), ('CKA_TOKEN', False), ('CKA_SENSITIVE', False), ('CKA_EXTRACTABLE', True), ('CKA_SIGN', True)]
+        else: t = s.SECRET_T + [('CKA_KEY_TYPE', {'aes': 'CKK_AES', 'generic': 'CKK_GENERIC_SECRET', 'des3': 'CKK_DES3'}[f])]
+        for i in ((0,) if det else (0, 2)):
+            ru = s.step('C_UnwrapKey', what, s=s.S, mech=s.M(wm, p), ukey=uk['pos'], wrapped=blobs[i], tmpl=s.T(t + [('CKA_LABEL', b'unwrapped')]))
+            if ru[0]['rvname'] != 'CKR_OK':
+                if not det: s.note_cross('C_UnwrapKey', what, i, ru[0]['rvname'], {})
+                raise Disagree()
+            o = s.add(ru, tk); s.read_attrs(o['pos'], f, producer='C_UnwrapKey')
+        bad = blobs[0][:-2] if r.random() < 0.5 else s.blob(len(blobs[0]) // 2)
+        s.step('C_UnwrapKey', what + ':bad-blob', s=s.S, mech=s.M(wm, p), ukey=uk['pos'], wrapped=bad, tmpl=s.T(t))
+    def u_derive(s):
+        r = s.rnd; R = K.RAW; c = r.randrange(9); vl = r.choice([None, 16, 16, 24, 32, 8, 1, 33, 64]); kt = r.choice(['CKK_GENERIC_SECRET', 'CKK_GENERIC_SECRET', 'CKK_AES', 'CKK_DES3', 'CKK_DES2'])
+        t = s.SECRET_T + [('CKA_KEY_TYPE', kt), ('CKA_DERIVE', True)] + ([('CKA_VALUE_LEN', vl)] if vl is not None else [])
+        if c == 0:
+            cv = r.choice(['ec_p256', 'ec_p384', 'ec_p521']); base = s.gold(cv + ':priv'); pt = R[cv + 'b']['CKA_EC_POINT']; raw = r.random() < 0.4
+            if raw: pt = pt[4:] if len(pt) < 260 else pt[6:]     # strip the DER OCTET STRING header (1- or 2-byte length)
+            m = 'CKM_ECDH1_DERIVE'; p = {'ecdh1': {'kdf': 1, 'public': pt}}; what = m + (':raw-point' if raw else '')
+        elif c == 1: base = s.gold('dh1024:priv'); m = 'CKM_DH_PKCS_DERIVE'; p = {'hex': R['dh1024b']['CKA_VALUE']}; what = m
+        elif c in (2, 3):
+            f = r.choice(['aes', 'des3']); base = s.sym_key(f); bs = 16 if f == 'aes' else 8; m = 'CKM_AES_ECB_ENCRYPT_DATA' if f == 'aes' else 'CKM_DES3_ECB_ENCRYPT_DATA'; p = {'kdstr': s.blob(r.choice([bs, 2 * bs, 4 * bs, bs + 1, 0]))}; what = m
+        elif c in (4, 5):
+            f = r.choice(['aes', 'des3']); base = s.sym_key(f); bs = 16 if f == 'aes' else 8; m = 'CKM_AES_CBC_ENCRYPT_DATA' if f == 'aes' else 'CKM_DES3_CBC_ENCRYPT_DATA'; p = {'cbcdata': {'iv': s.blob(bs), 'data': s.blob(r.choice([bs, 2 * bs, 4 * bs, bs - 1]))}}; what = m
+        elif c == 6: base = s.gold(r.choice(['generic32', 'aes128'])); m = 'CKM_CONCATENATE_BASE_AND_KEY'; p = {'hkey': s.gold(r.choice(['generic64', 'aes256', 'generic32']))['pos']}; what = m
+        else: base = s.gold(r.choice(['generic32', 'generic64', 'aes128'])); m = r.choice(['CKM_CONCATENATE_BASE_AND_DATA', 'CKM_CONCATENATE_DATA_AND_BASE']); p = {'kdstr': s.blob(r.choice([1, 16, 32, 0]))}; what = m
+        if not s.has(m): return
+        s.unit = f'derive {what} base={base["kind"]} type={kt} len={vl}'
+        rs = s.step('C_DeriveKey', what, s=s.S, mech=s.M(m, p), key=base['pos'], tmpl=s.T(t + [('CKA_LABEL', b'derived')]))
+        if rs[0]['rvname'] == 'CKR_OK': o = s.add(rs, {'CKK_GENERIC_SECRET': 'generic32', 'CKK_AES': 'aes128', 'CKK_DES3': 'des3', 'CKK_DES2': 'des2'}[kt]); s.read_attrs(o['pos'], o['fam'], producer='C_DeriveKey')
+    def u_keygen(s):
+        r = s.rnd; c = r.randrange(5); skip = {'CKA_VALUE', 'CKA_CHECK_VALUE', 'CKA_EC_POINT', 'CKA_ID'}
+        if c < 3:
+            m, kind, extra = [('CKM_AES_KEY_GEN', 'aes128', [('CKA_VALUE_LEN', r.choice([16, 24, 32, 17, 0]))]), ('CKM_GENERIC_SECRET_KEY_GEN', 'generic32', [('CKA_VALUE_LEN', r.choice([1, 20, 64, 0]))]), ('CKM_DES3_KEY_GEN', 'des3', [])][c]
+            s.unit = f'keygen {m} {extra}'; rs = s.step('C_GenerateKey', m, s=s.S, mech=s.M(m), tmpl=s.T([('CKA_TOKEN', r.random() < 0.2), ('CKA_SENSITIVE', r.random() < 0.5), ('CKA_EXTRACTABLE', r.random() < 0.7), ('CKA_ENCRYPT', True), ('CKA_DECRYPT', True), ('CKA_SIGN', True), ('CKA_VERIFY', True), ('CKA_LABEL', b'generated')] + extra))
+            if rs[0]['rvname'] != 'CKR_OK': return
+            o = s.add(rs, kind); s.read_attrs(o['pos'], o['fam'], [a for a in attrs_of(o['fam']) if a not in skip], producer='C_GenerateKey')
+        else:
+            m, kind, pub = [('CKM_EC_KEY_PAIR_GEN', r.choice(['ec_p256', 'ec_p384']), None), ('CKM_EC_EDWARDS_KEY_PAIR_GEN', 'ed25519', None)][c - 3]; pub = [('CKA_EC_PARAMS', bytes.fromhex(K.RAW[kind]['CKA_EC_PARAMS']))]
+            if not s.has(m): return
+            s.unit = f'keypairgen {m} {kind}'
+            rs = s.step('C_GenerateKeyPair', m, s=s.S, mech=s.M(m), pub=s.T([('CKA_TOKEN', False), ('CKA_VERIFY', True), ('CKA_LABEL', b'gen-pub')] + pub), priv=s.T([('CKA_TOKEN', False), ('CKA_SIGN', True), ('CKA_SENSITIVE', r.random() < 0.5), ('CKA_EXTRACTABLE', r.random() < 0.5), ('CKA_LABEL', b'gen-priv')]))
+            if rs[0]['rvname'] != 'CKR_OK': return
+            op = s.add(rs, kind + ':pub', 'hpub'); oq = s.add(rs, kind + ':priv', 'hpriv')
+            s.read_attrs(op['pos'], op['fam'], [a for a in attrs_of(op['fam']) if a not in skip], producer='C_GenerateKeyPair'); s.read_attrs(oq['pos'], oq['fam'], [a for a in attrs_of(oq['fam']) if a not in skip], producer='C_GenerateKeyPair')
+            for o in (op, oq): o['alive'] = False      # per-configuration random keys: not usable for byte comparisons later
+    def u_random(s):
+        s.unit = 'random'; n = s.rnd.choice([0, 1, 16, 1000]); s.step('C_SeedRandom', 'random', s=s.S, data=s.blob(n)); s.step('C_GenerateRandom', 'random', s=s.S, buf=n)
+        s.step('C_GetSessionInfo', 'session', s=s.S); rs = s.q.call('C_GetTokenInfo', slot=Pos(s.slots))
+        labs = ['%s/flags=%x' % (r['rvname'], r.get('flags', 0)) for r in rs]; s.part.count('comparisons')
+        if len(set(labs)) > 1: s.note('C_GetTokenInfo', 'flags', labs, {})
+
+class Prog(Prog):
+    # ---------------------------------------------------------------- object-management units
+    def u_create(s):
+        r = s.rnd; kind = r.choice([k for k in K.kinds() if k != 'des']); f = fam(kind); tok = r.random() < 0.25; priv = r.random() < 0.3; c = r.randrange(10); extra = []; what = 'create:' + cls_of(f)
+        if c == 0: extra = [('CKA_START_DATE', b'20200101'), ('CKA_END_DATE', b'20991231')]
+        elif c == 1 and f not in ('data', 'cert', 'params'): extra = [('CKA_ALLOWED_MECHANISMS', [s.ck.CKM_AES_CBC, s.ck.CKM_SHA256_RSA_PKCS])]
+        elif c == 2: extra = [('CKA_LOCAL', True)]; what += ':illegal-local'
+        elif c == 3 and f not in ('data', 'cert', 'params'): extra = [('CKA_ALWAYS_SENSITIVE', True)]; what += ':illegal-always-sensitive'
+        elif c == 4: extra = [('CKA_MODIFIABLE', False)]
+        elif c == 5: extra = [('CKA_COPYABLE', False)] if r.random() < 0.5 else [('CKA_DESTROYABLE', False)]
+        t = K.template(kind, label='obj-%d-%d' % (s.seed % 1000, len(s.objs)), token=tok, private=priv, sensitive=r.random() < 0.4, extractable=r.random() < 0.7, usage=r.random() < 0.8, extra=extra)
+        if c == 6: t = [(a, v) for a, v in t if a not in ('CKA_VALUE', 'CKA_MODULUS', 'CKA_EC_PARAMS', 'CKA_PRIME')]; what += ':missing-component'
+        if c == 7 and f in ('aes', 'des3', 'des2'): t = [(a, (v + b'\x00' if a == 'CKA_VALUE' else v)) for a, v in t]; what += ':bad-value-length'
+        s.unit = f'create {kind} token={tok} private={priv} variant={c}'
+        rs = s.step('C_CreateObject', what, s=s.S, tmpl=s.T(t))
+        if rs[0]['rvname'] == 'CKR_OK': o = s.add(rs, kind); s.read_attrs(o['pos'], f, producer='C_CreateObject')
+    def u_copy(s):
+        r = s.rnd; o = s.pick()
+        if not o: return
+        c = r.randrange(8); what = 'copy'
+        t = [('CKA_LABEL', b'copy-%d' % len(s.objs))]
+        if c == 0: t.append(('CKA_TOKEN', r.random() < 0.5)); what += ':CKA_TOKEN'
+        elif c == 1: t.append(('CKA_PRIVATE', r.random() < 0.5)); what += ':CKA_PRIVATE'
+        elif c == 2 and o['fam'] not in ('data', 'cert', 'params') and not o['fam'].endswith('-pub'): t.append(('CKA_SENSITIVE', True)); what += ':CKA_SENSITIVE'
+        elif c == 3 and o['fam'] not in ('data', 'cert', 'params') and not o['fam'].endswith('-pub'): t.append(('CKA_EXTRACTABLE', False)); what += ':CKA_EXTRACTABLE'
+        elif c == 4: t.append(('CKA_CLASS', 'CKO_DATA')); what += ':illegal-class'
+        elif c == 5: t = []
+        elif c == 6: t.append(('CKA_ID', r.randbytes(r.choice([0, 4, 20]))))
+        s.unit = f'copy {o["kind"]} variant={c}'
+        rs = s.step('C_CopyObject', what, s=s.S, o=o['pos'], tmpl=s.T(t))
+        if rs[0]['rvname'] == 'CKR_OK': n = s.add(rs, o['kind']); s.read_attrs(n['pos'], n['fam'], producer='C_CopyObject')
+    def u_set(s):
+        r = s.rnd; o = s.pick(golden=False) or s.pick()
+        if not o: return
+        f = o['fam']; c = r.randrange(9); what = 'set'
+        if c == 0: t = [('CKA_LABEL', b'relabelled-%d' % s.steps)]
+        elif c == 1: t = [('CKA_ID', r.randbytes(r.choice([0, 1, 16])))]
+        elif c == 2: t = [(r.choice(['CKA_ENCRYPT', 'CKA_DECRYPT', 'CKA_SIGN', 'CKA_VERIFY', 'CKA_WRAP', 'CKA_UNWRAP', 'CKA_DERIVE']), r.random() < 0.5)]
+        elif c == 3: t = [('CKA_SENSITIVE', True)]
+        elif c == 4: t = [('CKA_EXTRACTABLE', r.random() < 0.5)]
+        elif c == 5: t = [('CKA_CLASS', 'CKO_DATA')]; what += ':illegal'
+        elif c == 6: t = [('CKA_VALUE', b'\x01' * 16)]; what += ':value'
+        elif c == 7: t = [('CKA_START_DATE', r.choice([b'20210203', b'', b'2021020']))]
+        else: t = [('CKA_LABEL', b'multi'), ('CKA_LOCAL', True)]; what += ':illegal'
+        what += ':' + t[-1][0] if ':' not in what else ''; s.unit = f'set {o["kind"]} {t[0][0]}'
+        s.step('C_SetAttributeValue', what, s=s.S, o=o['pos'], tmpl=s.T(t)); s.read_attrs(o['pos'], f, producer='C_SetAttributeValue')
+    def u_destroy(s):
+        o = s.pick(golden=False)
+        if not o: return
+        s.unit = 'destroy ' + o['kind']; rs = s.step('C_DestroyObject', 'destroy', s=s.S, o=o['pos'])
+        if rs[0]['rvname'] == 'CKR_OK': o['alive'] = False; s.step('C_GetAttributeValue', 'dead-handle', s=s.S, o=o['pos'], tmpl=[{'t': s.ck.CKA_LABEL, 'buf': 64}]); s.step('C_DestroyObject', 'dead-handle', s=s.S, o=o['pos'])
+    def u_find(s):
+        r = s.rnd; c = r.randrange(7); o = s.pick()
+        t = [] if c == 0 else [('CKA_CLASS', r.choice(['CKO_SECRET_KEY', 'CKO_PRIVATE_KEY', 'CKO_PUBLIC_KEY', 'CKO_DATA', 'CKO_CERTIFICATE']))] if c == 1 else [('CKA_TOKEN', r.random() < 0.5)] if c == 2 else \
+            [('CKA_KEY_TYPE', r.choice(['CKK_AES', 'CKK_RSA', 'CKK_EC', 'CKK_GENERIC_SECRET'])), ('CKA_SIGN', True)] if c == 3 else [('CKA_LABEL', o['kind'].encode())] if (c == 4 and o and o['golden']) else \
+            [('CKA_ID', b'rsa1024')] if c == 5 else [('CKA_PRIVATE', r.random() < 0.5), ('CKA_MODIFIABLE', True)]
+        s.unit = f'find {[a for a, _ in t]}'; what = 'find:' + '+'.join(a for a, _ in t)
+        s.step('C_FindObjectsInit', what, s=s.S, tmpl=s.T(t), must_ok=True)
+        rs = s.step('C_FindObjects', what, cmp=('n',), s=s.S, max=r.choice([500, 500, 3])); s.step('C_FindObjectsFinal', what, s=s.S)
+        if rs[0]['rvname'] != 'CKR_OK' or rs[0].get('n', 0) >= 500 or rs[0].get('n') == 3: return
+        sets = []
+        for i, rr in enumerate(rs):
+            back = {o['pos'].hs[i]: j for j, o in enumerate(s.objs)}; sets.append(tuple(sorted(back.get(h, -1) for h in rr.get('objs', []))))
+        s.part.count('comparisons'); labs = value_labels([json.dumps(x).encode().hex() for x in sets])
+        if len(set(labs)) > 1: s.note('C_FindObjects', what + ':result-set', ['ABCD'[sorted(set(sets)).index(x)] for x in sets] if False else labs, {'sets': [list(x) for x in sets]})
+    def u_getattr(s):
+        r = s.rnd; o = s.pick()
+        if not o: return
+        names = r.sample(attrs_of(o['fam']), min(len(attrs_of(o['fam'])), r.randrange(1, 6))) + r.sample(['CKA_VALUE', 'CKA_PRIVATE_EXPONENT', 'CKA_MODULUS', 'CKA_EC_POINT', 'CKA_CHECK_VALUE', 'CKA_VALUE_LEN', 'CKA_WRAP_TEMPLATE', 'CKA_PUBLIC_KEY_INFO', 'CKA_URL'], r.randrange(0, 3))
+        bufs = [r.choice([None, 0, 1, 8, 4096, 4096]) for _ in names]; s.unit = f'getattr {o["kind"]} {names}'
+        rs = s.q.call('C_GetAttributeValue', s=s.S, o=o['pos'], tmpl=[{'t': s.ck[a], 'buf': b} for a, b in zip(names, bufs)])
+        for j, a in enumerate(names):
+            s.part.count('comparisons'); es = [(rr.get('tmpl') or [{}] * len(names))[j] for rr in rs]
+            labs = ['len=%s' % e.get('len') for e in es]
+            if len(set(labs)) == 1 and all('data' in e for e in es) and rs[0]['rvname'] == 'CKR_OK': labs = value_labels([e.get('data') for e in es])
+            if len(set(labs)) > 1: s.note('C_GetAttributeValue', f'{a}:{o["fam"]}', labs, {'buf': bufs[j]})
+        s.step('C_GetObjectSize', 'object-size', s=s.S, o=o['pos'])
+
+UNITS = [('u_create', 5), ('u_copy', 4), ('u_set', 4), ('u_destroy', 2), ('u_find', 3), ('u_getattr', 3), ('u_digest', 2), ('u_sym', 6), ('u_mac', 3), ('u_rsa_sign', 3), ('u_rsa_pss', 2), ('u_rsa_enc', 2),
+         ('u_ecdsa', 2), ('u_eddsa', 1.5), ('u_dsa', 1.5), ('u_wrap', 5), ('u_derive', 4), ('u_keygen', 1.5), ('u_random', 0.5)]
+
+def build_golden(env, i, d):
+    cfg, be = CONFIGS[i]; p = env['paths'][cfg]; ck = env['ck']
+    x = Exec(p['exe'], p['lib'], mkconf(d, be), ck, env=dict(SAN_ENV), stderr=f'{d}/stderr.log', trace=None)
+    def ok(r): assert r['rv'] == 0, r; return r
+    ok(x.call('C_Initialize')); slot = x.call('C_GetSlotList', count=8)['slots'][-1]; ok(x.call('C_InitToken', slot=slot, pin=SO_PIN.hex(), label=b'c20'.hex()))
+    slot = [sl for sl in x.call('C_GetSlotList', count=8)['slots'] if x.call('C_GetTokenInfo', slot=sl)['flags'] & ck.CKF_TOKEN_INITIALIZED][0]
+    s = ok(x.call('C_OpenSession', slot=slot))['h']; ok(x.call('C_Login', s=s, user=0, pin=SO_PIN.hex())); ok(x.call('C_InitPIN', s=s, pin=USER_PIN.hex())); ok(x.call('C_Logout', s=s)); ok(x.call('C_Login', s=s, user=1, pin=USER_PIN.hex()))
+    for kind in GOLDEN_KINDS: ok(x.call('C_CreateObject', s=s, tmpl=x.T(K.resolve(ck, K.template(kind, token=True, private=True)))))
+    ml = x.call('C_GetMechanismList', slot=slot, count=300)['mechs']; info = {}
+    for m in ml: r = x.call('C_GetMechanismInfo', slot=slot, m=m); info[ck.MECH.get(m, hex(m))] = (r['min'], r['max'], r['flags'])
+    ok(x.call('C_Finalize')); x.close(); os.unlink(f'{d}/stderr.log')
+    return info
+
+def run_program(env, seed, part):
+    d = os.path.join(env['scratch'], 'p%d' % seed); shutil.rmtree(d, ignore_errors=True); os.makedirs(d); q = Quad(env, d); P = Prog(env, seed, part); P.q = q; ck = env['ck']
+    try:
+        for r in q.call('C_Initialize'): assert r['rv'] == 0, r
+        slots = []
+        for x in q.x: slots.append([sl for sl in x.call('C_GetSlotList', count=8)['slots'] if x.call('C_GetTokenInfo', slot=sl)['flags'] & ck.CKF_TOKEN_INITIALIZED][0])
+        P.slots = slots
+        anchor = Pos([r['h'] for r in q.call('C_OpenSession', slot=Pos(slots), flags=6)])
+        for r in q.call('C_Login', s=anchor, user=1, pin=USER_PIN.hex()): assert r['rv'] == 0, r
+        # golden objects by label
+        hs = [x.findall(anchor.hs[i])[1] for i, x in enumerate(q.x)]; bylabel = [{} for _ in q.x]
+        for i, x in enumerate(q.x):
+            for h in hs[i]: bylabel[i][x.getattrs(anchor.hs[i], h, ['CKA_LABEL'])[1]['CKA_LABEL'].decode()] = h
+        for kind in GOLDEN_KINDS: P.objs.append({'pos': Pos([bylabel[i].get(kind, 0) for i in range(4)]), 'kind': kind, 'fam': fam(kind), 'alive': True, 'golden': True})
+        assert all(all(o['pos'].hs) for o in P.objs), 'golden objects missing'
+        names = [u for u, _ in UNITS]; w = [x for _, x in UNITS]; units = 0
+        while P.steps < env['ncalls']:
+            P.S = Pos([r['h'] for r in q.call('C_OpenSession', slot=Pos(slots), flags=6)]); u = P.rnd.choices(names, w)[0]; n0 = P.steps
+            try: getattr(P, u)()
+            except Disagree: pass
+            q.call('C_CloseSession', s=P.S); units += 1; part.count('units'); part.count('unit:' + u)
+            if P.steps == n0 and units > 400: break
+        part.count('programs'); part.count('steps', P.steps)
+        if len(part.samples) < 2: part.samples.append({'seed': seed, 'steps': P.steps, 'history_head': [list(map(str, h)) for h in P.log[:14]]})
+        for x in q.x:
+            for cat, loc in x.ubsan_reports()[:10]: part.observe('side:ubsan ' + loc, cat[:100])
+    except Died as e:
+        part.observe('side:C17 library terminated the host', {'kind': e.kind(), 'fn': e.fn, 'where': e.where(), 'seed': seed, 'unit': P.unit}); part.inconc(f'executor died ({e.kind()} in {e.fn}) seed={seed} unit={P.unit}')
+    except Hang: part.inconc(f'executor hang seed={seed} unit={P.unit}')
+    except AssertionError as e: part.inconc(f'setup failed seed={seed}: {e!r}')
+    finally: q.kill(); shutil.rmtree(d, ignore_errors=True)
+
+def worker(job):
+    part = Part(); env = dict(job['env']); env['ck'] = CK(env['hdr']); env['scratch'] = os.path.join(env['scratch'], 'w%d' % os.getpid()); os.makedirs(env['scratch'], exist_ok=True)
+    for seed in job['seeds']: run_program(env, seed, part)
+    return part
+
+def run(ctx):
+    ctx.rule = ('one program = a seeded sequence of units (object management: create/copy/set/destroy/find/get-attribute on all classes; crypto: digests, AES/DES3 modes, HMAC/CMAC, RSA/ECDSA/EdDSA/DSA sign+verify, '
+                'RSA encryption, wrap/unwrap, derive, key generation; every unit in one of the size-query / small-buffer / one-shot / multi-part shapes) executed in lock-step on OpenSSL/file, OpenSSL/db, Botan/file, Botan/db '
+                'holding the same imported keys; one evaluation = one compared item (return codes of a step, an output, an attribute); distinct = (entry point, mechanism or attribute class) pairs compared; '
+                'randomised outputs are cross-fed to all four configurations')
+    ctx.need('asan', 'botan'); nprog = ctx.q(150, 5000); ncalls = 40
+    if os.environ.get('C20_SCALE'): nprog = max(4, int(nprog * float(os.environ['C20_SCALE'])))
+    env = dict(paths=ctx.paths, hdr=ctx.paths['asan']['hdr'], scratch=ctx.scratch, ncalls=ncalls, ck=ctx.ck); golden = []; infos = []
+    for i in range(4): g = ctx.dir('golden%d' % i); infos.append(build_golden(env, i, g)); golden.append(g)
+    common = set(infos[0]); 
+    for inf in infos[1:]: common &= set(inf)
+    for m in sorted(set().union(*infos) - common): ctx.observe('mechanism not advertised by all four configurations (excluded)', m)
+    for m in sorted(common):
+        if len({inf[m] for inf in infos}) > 1: ctx.observe('C_GetMechanismInfo differs (key sizes restricted to the intersection)', {m: [inf[m] for inf in infos]})
+    common -= {m for m in common if m.startswith('CKM_DES_')}     # single DES: the system OpenSSL 3 has no legacy provider, an artefact of this machine
+    env.update(golden=golden, mechs=sorted(common)); del env['ck']
+    seeds = [ctx.seed * 1000003 + i for i in range(nprog)]
+    if ctx.replay: seeds = [json.load(open(ctx.replay))['witness']['seed']]
+    jobs = [dict(env=env, seeds=seeds[i:i + 3]) for i in range(0, len(seeds), 3)]
+    for part in pmap(worker, jobs, ctx.nproc): ctx.merge(part)
+    ctx.extra['programs'] = ctx.extra.get('programs', 0); ctx.extra['disagreements_checked'] = ctx.extra.get('comparisons', 0); ctx.extra['disagreements_found'] = ctx.extra.get('disagreements_found', 0)
+    ctx.extra['mechanisms_in_intersection'] = len(common)
+    ctx.assumptions += ['single-DES mechanisms are excluded: the system OpenSSL 3 lacks the legacy provider, which is a property of this machine, not of the library',
+                        'C_GetObjectSize values, C_GetMechanismInfo key-size ranges and object handle numbers are not compared (handles by position; sizes are storage-specific by nature); find results are compared as sets',
+                        'key material is imported from vlib/keys_c17.py; keys generated inside a program are random per configuration and only their non-random attributes are compared',
+                        'after a step whose return codes differ the rest of that unit is skipped (it would only cascade); the program continues with the next unit in a fresh session']
+
+if __name__ == '__main__': main('C20', run, level='translation_validation', min_evaluations=2000, min_distinct=60)
